@@ -256,6 +256,21 @@ def install():
 
     sc.Scheduler.optimize_sub_schedule = optimize_sub_schedule
 
+    orig_os = sc.Scheduler.optimize_schedule
+
+    def optimize_schedule(self, schedule, max_sched, max_template):
+        line = None
+        try:
+            line = f"maxfits {_i(max_sched.fast_storage_peak_usage)} {_i(self.sram_limit)} {int(bool(self.arch.is_spilling_enabled()))}"
+        except Exception:
+            _errors.append(traceback.format_exc()[-1500:])
+        r = orig_os(self, schedule, max_sched, max_template)
+        if line is not None:
+            _rec.append({"kind": "maxfits", "line": line, "real": str(int(r is max_sched))})
+        return r
+
+    sc.Scheduler.optimize_schedule = optimize_schedule
+
     # ---- get_temporal_memory_usage / update_op_memory_snapshot ----------------------------------------------------
     orig_tu = live_range.LiveRangeGraph.get_temporal_memory_usage
 
@@ -904,6 +919,7 @@ def stage(ck, outs, prefix="sched_"):
                  "minnl": "Model/SchedMem.minNonLocal = Scheduler.build_cascades_for_min_schedule", "tusage": "Model/SchedMem.temporalUsage = LiveRangeGraph.get_temporal_memory_usage",
                  "fast": "Model/SchedMem.useFastStorage = Scheduler.use_fast_storage_for_feature_maps", "ffast": "Model/SchedMem.forcedToFast = the loop 'Force all OFMs to fast-storage'",
                  "opbuf": "Model/SchedMem.operatorBuffering = Scheduler.propose_operator_buffering",
+                 "maxfits": "Model/SchedMem.maxScheduleFits = the first test of Scheduler.optimize_schedule",
                  "sinfo": "Model/SchedMem.stripeInputs = SchedulerOperation.create_scheduler_info (stripe_input, stripe_input2)", "wbuf": "Model/SchedMem.weightBufferDecision = tail of Scheduler.propose_weight_buffering"}
         same = [x for x in disagreements if x[0]["kind"] == r["kind"]]
         # failing-input search: does the Lean Spec reject the real values of a network on which model and code disagree?
